@@ -353,6 +353,11 @@ def lib_snippet(src, ops=None, track=None):
     return "\n".join(lines)
 
 
+def lib_reproducible(case, out):
+    """two fresh instances of this source give the same outcomes (otherwise neither values nor their number are judged)"""
+    return out.get("ref") == out.get("ref2") and case["cls"] not in LIB_UNSEEDED and "?" not in case["src"]
+
+
 def lib_judge(case, out):
     """the oracle of the library stream.  Returns (violations, notes): violations = [(signature, replay doc)],
     notes = what could (not) be judged.  `case` = {cls, src, finite, script, track}."""
@@ -379,7 +384,7 @@ def lib_judge(case, out):
         notes.append("no StopIteration within %d calls" % LIB_REFN if all(o != "stop" for o in ref[1:]) else "raises before it ends")
     elif LIB_REFN - fs[0] - 1 >= AFTER and fs[0] > 0:
         notes.append("nontrivial-sticky")
-    reproducible = ref == ref2 and cls not in LIB_UNSEEDED and "?" not in src
+    reproducible = lib_reproducible(case, out)
     if not reproducible:
         notes.append("not reproducible (draws from a generator that seed() does not reach): values not judged")
     # 2. helpers and copies against repeated next() of a fresh instance
@@ -414,7 +419,7 @@ def lib_judge(case, out):
                    "track": {k: t[k] for k in ("mode", "ticks", "ended", "ons", "offs", "pulled")},
                    "python": lib_snippet(src, track=case["track"])}
             sig = None
-            if len(played) > n:
+            if reproducible and len(played) > n:
                 sig, doc["expected"] = "track-replays", "the track takes the %d values of the stream once; every later poll (one per tick while the last note sounds) raises StopIteration" % n
                 doc["observed"] = "%d values taken by the track: %r" % (len(played), [from_json(v) for v in played][:n + 8])
             elif reproducible and played != vals:
@@ -550,7 +555,7 @@ def check_drained_model(run, cases, outs, flagged):
         ref = out["ref"]
         fs = lib_values(ref)
         t = out.get("track")
-        if t and t.get("mode") and not t.get("error") and fs is not None and judge_sticky(ref) is None:
+        if t and t.get("mode") and not t.get("error") and fs is not None and judge_sticky(ref) is None and lib_reproducible(c, out):
             cfg = c["track"]
             played = t["pulled"] if t["mode"] == "tap" else t["ons"]
             dur_t, gate4 = Fraction(cfg["dur"][0] * cfg["tpb"], cfg["dur"][1]), Fraction(cfg["gate"][0] * 4, cfg["gate"][1])
